@@ -323,6 +323,12 @@ func guardsOf(b *ssa.BasicBlock) []Guard {
 		if site := helperCallSite(fn); site != nil && site.Block() != nil && site.Parent() != fn {
 			out = append(out, guardsOf(site.Block())...)
 		}
+	} else if fn != nil && fn.Parent() != nil && ht.enabled {
+		// a function literal that is called in one place and used for nothing else runs under the
+		// conditions of that place
+		if site := soleDirectCall(fn); site != nil && site.Block() != nil && site.Parent() != fn {
+			out = append(out, guardsOf(site.Block())...)
+		}
 	}
 	return out
 }
@@ -453,6 +459,13 @@ func falseAlts(v ssa.Value, depth int) (alts [][]Guard, ok bool) {
 	switch x := v.(type) {
 	case *ssa.UnOp:
 		if x.Op == token.NOT {
+			// !y is false when y is true
+			if _, isPhi := x.X.(*ssa.Phi); isPhi {
+				return truthAlts(x.X, depth+1)
+			}
+			if _, isNot := x.X.(*ssa.UnOp); isNot {
+				return truthAlts(x.X, depth+1)
+			}
 			return [][]Guard{{Guard{Cond: x.X, Pol: true}}}, true
 		}
 	case *ssa.Phi:
@@ -806,7 +819,13 @@ func truthAlts(v ssa.Value, depth int) (alts [][]Guard, ok bool) {
 	switch x := v.(type) {
 	case *ssa.UnOp:
 		if x.Op == token.NOT {
-			// !y is true when y is false: only understood for atoms
+			// !y is true when y is false (De Morgan through the && / || phis)
+			if _, isPhi := x.X.(*ssa.Phi); isPhi {
+				return falseAlts(x.X, depth+1)
+			}
+			if _, isNot := x.X.(*ssa.UnOp); isNot {
+				return falseAlts(x.X, depth+1)
+			}
 			return [][]Guard{{Guard{Cond: x.X, Pol: false}}}, true
 		}
 	case *ssa.Phi:
